@@ -166,3 +166,43 @@ CONTRACTS = [
     Contract("wntr.network.controls:TimeOfDayCondition.evaluate", P, _tod_cases,
              note="times are integers; step length <= 1 day; shifted = sim + start_clocktime"),
 ]
+
+
+# ---------------------------------------------------------------------------- the clock the time conditions read
+
+def _clock_case(first_step):
+    """WaterNetworkModel._shifted_time / _prev_shifted_time / _clock_time / _clock_day: seconds since 12 AM of the first day at the current and at the
+    previously solved time (the sentinel -1 before the first solve, so that an instant equal to the start clock time lies in (prev, now])."""
+    def build(cx):
+        from wntr.network.model import WaterNetworkModel
+        from pyvc import library
+        st, sc = cx.int("sim_time"), cx.int("start_clocktime")
+        pv = -1 if first_step else cx.int("prev_sim_time")
+        cx.assume(cx.t(st) >= 0, cx.t(sc) >= 0, cx.t(sc) < 86400)
+        if first_step:
+            cx.assume(cx.t(st) == 0)
+        else:
+            cx.assume(cx.t(pv) >= 0, cx.t(pv) < cx.t(st))
+        wn = cx.obj(WaterNetworkModel, sim_time=st, _prev_sim_time=pv, _options=types.SimpleNamespace(time=types.SimpleNamespace(start_clocktime=sc)))
+        cx.target(_clock_views, wn)
+
+        def post(out):
+            if not out.returned:
+                return []
+            sh, psh, ct, cd = [library.as_int(v) for v in out.value]
+            PV = z3.IntVal(-1) if first_step else cx.t(pv)
+            return [("shifted_time_is_simulation_time_plus_start_clock_time", sh == cx.t(st) + cx.t(sc)),
+                    ("previous_shifted_time_is_the_last_solved_time_plus_start_clock_time_and_lies_before_now", z3.And(psh == PV + cx.t(sc), psh < sh)),
+                    ("clock_time_is_the_time_of_day", z3.And(ct >= 0, ct < 86400, (sh - ct) % 86400 == 0)),
+                    ("clock_day_counts_whole_days_since_midnight_of_the_first_day", z3.And(cd * 86400 <= sh, sh < (cd + 1) * 86400))]
+        cx.ensure(post)
+    return Case("first_step=%s" % first_step, build, crosscheck=False)
+
+
+def _clock_views(wn):
+    # harness text: the four read-only views in one call
+    return (wn._shifted_time, wn._prev_shifted_time, wn._clock_time, wn._clock_day)
+
+
+CONTRACTS.append(Contract("wntr.network.model:WaterNetworkModel._shifted_time/_prev_shifted_time/_clock_time/_clock_day", P + ["C03"], [_clock_case(False), _clock_case(True)],
+                          interpret_always=(_clock_views,), note="what TimeOfDayCondition.evaluate reads as (prev, now]; integer seconds"))
